@@ -534,3 +534,74 @@ def rand_project(rnd, spec, nmods=None, depth=1, allow_meta=True, small=False, t
         p.attach_pattern(None)
         p.attach_pattern(api.PatternClone(source=base + 3, x=16, y=8))         # an empty position
     return p
+
+
+def boundary_sources(spec):
+    """Deterministic objects holding the boundary values of the format (no random stream: a detection that depends on
+    them does not move when a generator elsewhere changes).  Returns [(name, Synth or Project)]."""
+    import rv.api as api
+    cl = classes()
+    out = []
+    wave = [-128, 127, -1, 0, 1, -127, 126, -128] * 4
+    for t in ("Generator", "Analog generator"):
+        mod = cl[t]()
+        mod.drawn_waveform.samples = list(wave)
+        out.append(("bnd-%s.sunsynth" % t.split()[0].lower(), api.Synth(mod)))
+    S = cl["Sampler"]
+    smp = S()
+    for k, slot in enumerate((0, 1, 63, 126, 127)):
+        s = S.Sample()
+        s.format = list(S.Format)[k % len(list(S.Format))]
+        s.channels = list(S.Channels)[k % 2]
+        s.data = bytes((17 * k + j) % 256 for j in range(16))
+        s.rate = 22177 + k
+        s.name = b"slot%d" % slot
+        s.loop_start, s.loop_len = k, 2 * k
+        smp.samples[slot] = s
+    for j, k in enumerate(list(smp.note_samples)):
+        smp.note_samples[k] = (0, 1, 63, 126, 127)[j % 5]
+    out.append(("bnd-sampler.sunsynth", api.Synth(smp)))
+    shared = S()            # one Sample object sitting in three slots
+    s = S.Sample()
+    s.data, s.rate, s.name = bytes(range(24)), 11025, b"shared"
+    for slot in (2, 4, 9):
+        shared.samples[slot] = s
+    for j, k in enumerate(list(shared.note_samples)):
+        shared.note_samples[k] = (2, 4, 9)[j % 3]
+    out.append(("bnd-sampler-shared.sunsynth", api.Synth(shared)))
+    p = api.Project()
+    p.name = "bnd"
+    vis = [0x01 | (1 << 24) | (2 << 26), 0x22 | (3 << 24), 0x0304 | (3 << 26), 0x00FF0702 | (2 << 24) | (1 << 26)]
+    mods = []
+    for k, t in enumerate(("Amplifier", "Sound2Ctl", "MultiCtl", "LFO", "Generator", "Delay")):
+        mod = p.new_module(cl[t])
+        mod.visualization = vis[k % len(vis)]
+        mods.append(mod)
+    amp, s2c, mc, lfo, gn, dl = mods
+    amp.name = ""
+    s2c.record_values, s2c.send_only_changed_values = False, False
+    s2c.name, s2c.midi_out_name = "ctl", "Port 1"
+    mc.curve.values = [(i * 97) % 32769 for i in range(257)]
+    mc.mappings.values[0].min, mc.mappings.values[0].max, mc.mappings.values[0].controller = 3, 30000, 2
+    lfo.midi_out_name = "x"
+    gn.drawn_waveform.samples = list(wave)
+    p.connect(gn, dl)
+    p.connect(dl, dl)              # a module fed by itself, behind another link of the same source
+    p.connect(dl, amp)
+    p.connect(amp, p.output)
+    for dst in (lfo, mc):          # links into modules that only send
+        p.connect(amp, dst)
+    pat = api.Pattern(tracks=4, lines=8, name="named", x=-4, y=2)
+    pat.data[1][0].note, pat.data[1][0].module = api.NOTECMD.C4, 2
+    pat.data[1][1].module = 3             # module-only cell next to a real note
+    pat.data[4][2].module = 5             # module-only cells alone on their lines
+    pat.data[5][0].module = 1
+    pat.data[7][3].module = 300
+    p.attach_pattern(pat)
+    noicon = api.Pattern(tracks=1, lines=2, name="no icon")
+    noicon.flags_PFLG = 1            # no_icon, with an icon nevertheless stored
+    noicon.icon = bytes([0x81, 0xFF] * 16)
+    p.attach_pattern(noicon)
+    p.attach_pattern(api.PatternClone(source=0, x=40, y=-3))
+    out.append(("bnd-project.sunvox", p))
+    return out
